@@ -465,8 +465,18 @@ def typing_of(opnames):
 def build(src, opnames, pandas=False):
     """Apply the op list to a source collection (or pandas frame)."""
     x = src
-    for n in opnames:
-        x = OPS[n].apply(x, pandas=pandas)
+    if pandas:
+        for n in opnames:
+            x = OPS[n].apply(x, pandas=True)
+        return x
+    # operations tagged "nested" optimise a sub-plan while the program is BUILT: shuffles inside it must not be lowered to the
+    # default disk (partd) shuffle, whose row order is run-dependent (KF-disk-shuffle-row-order), or the same collection would
+    # compute different rows on every execution
+    import dask
+
+    with dask.config.set({"dataframe.shuffle.method": "tasks"}):
+        for n in opnames:
+            x = OPS[n].apply(x, pandas=False)
     return x
 
 
